@@ -263,6 +263,9 @@ def shapes(tier, contexts=('assign', 'component'), size_types=()):
             for k2 in (('range', 'MIN', 'MAX'), ('range', 'MIN', 'hi'), ('range', 'lo', 'MAX')):
                 out.append(Shape([ESet([mk_elem(k1)], [], False), ESet([mk_elem(k2)], [], True)], ctx))
         out.append(Shape([ESet([mk_elem(('range', 'lo', 'hi'))], [], False), ESet([mk_elem(('range', 'MIN', 'MAX'))], [], False)], ctx))
+        # ... and on a last constraint that is a SET OPERATION (`(0..255) (0..10 | 20, ...)`: the marker sits on the last operand)
+        for op in ('|', '^'):
+            out.append(Shape([ESet([mk_elem(('range', 'lo', 'hi'))], [], False), ESet([mk_elem(('range', 'lo', 'hi')), mk_elem(('single',))], [op], True)], ctx))
         if thorough:
             for k1 in ser[:2]:
                 out.append(Shape([ESet([mk_elem(k1), mk_elem(('range', 'lo', 'hi'))], ['|'], False), ESet([mk_elem(('range', 'lo', 'hi'))], [], True)], ctx))
